@@ -1,6 +1,7 @@
 package props
 
 import (
+	"bytes"
 	"fmt"
 	"reflect"
 
@@ -115,10 +116,22 @@ func valFeatures(ctx *Ctx, s *gen.TypeSpec, v *gen.Val) (nt bool) {
 }
 
 func marshalDoc(ctx *Ctx, format string, value interface{}, cfg *configuration.Configuration) (doc []byte, err error, bad error) {
+	// the entry point alternates, as a function of the value's type, between the document function and
+	// the stream function writing to a plain io.Writer (Write only, no WriteString)
+	stream := len(fmt.Sprintf("%T", value))%2 == 1
 	o := ctx.Guard(func() {
-		if format == "cbe" {
+		switch {
+		case stream:
+			var buf bytes.Buffer
+			if format == "cbe" {
+				err = ce.MarshalCBE(value, plainWriter{&buf}, cfg)
+			} else {
+				err = ce.MarshalCTE(value, plainWriter{&buf}, cfg)
+			}
+			doc = buf.Bytes()
+		case format == "cbe":
 			doc, err = ce.MarshalToCBEDocument(value, cfg)
-		} else {
+		default:
 			doc, err = ce.MarshalToCTEDocument(value, cfg)
 		}
 	})
